@@ -784,7 +784,9 @@ impl HandlerRunner {
         };
         match &p.kind {
             PacketKind::WhoAreYou { id_nonce, .. } => {
-                let fresh = !self.wire.iter().any(|d| d.from_idx != ATTACKER && d.bytes != bytes && {
+                // (byte-identical re-emissions included: the handler never retransmits a WHOAREYOU, and the
+                // property exempts retransmissions for message nonces only)
+                let fresh = !self.wire.iter().any(|d| d.from_idx != ATTACKER && {
                     packet_decode(&d.dst_id, ProtocolIdentity::default(), &d.bytes)
                         .map(|(q, _)| matches!(q.kind, PacketKind::WhoAreYou { id_nonce: i2, .. } if &i2 == id_nonce))
                         .unwrap_or(false)
@@ -1232,7 +1234,9 @@ impl HandlerRunner {
                 self.finish(Some(xi), Some(format!("appwru {} {} {}", na, nn, rec)), 1, out, stats);
             }
             // application of node X answers the R-th request delivered to it
-            ["hresp", x, r, kind] => {
+            ["hresp", x, r, kind, rest @ ..] => {
+                // optional 5th token: the response carries that request id instead of the request's own
+                let rid_override: Option<u64> = rest.first().and_then(|s| s.parse().ok());
                 let Some(xi) = self.node_pos(x) else { return self.finish(None, None, 0, out, stats) };
                 let xidx0 = self.nodes[xi].idx;
                 let r: usize = if *r == "next" {
@@ -1254,6 +1258,7 @@ impl HandlerRunner {
                     "nodes1" => ResponseBody::Nodes { total: 1, nodes: vec![own] },
                     "nodes0" => ResponseBody::Nodes { total: 1, nodes: vec![] },
                     "nodes3" => ResponseBody::Nodes { total: 3, nodes: vec![] },
+                    "nodes20" => ResponseBody::Nodes { total: 20, nodes: vec![] },
                     "nodes2" => ResponseBody::Nodes { total: 2, nodes: vec![own] },
                     "nodesbad" => ResponseBody::Nodes { total: 1, nodes: vec![self.attacker_enr.clone().unwrap()] },
                     // the (validly signed) record of some other node, which may advertise no socket
@@ -1272,8 +1277,9 @@ impl HandlerRunner {
                     }
                     _ => ResponseBody::Talk { response: b"y".to_vec() },
                 };
-                let resp = Response { id: req.id.clone(), body };
-                let rid = self.name_rid(req.id.as_bytes(), 0);
+                let resp = Response { id: rid_override.map(rid_bytes).unwrap_or_else(|| req.id.clone()), body };
+                if rid_override.is_some() { stats.bump("h.op.resp-with-foreign-request-id"); }
+                let rid = self.name_rid(resp.id.as_bytes(), 0);
                 let rb = self.rb_term(&resp.body);
                 let nas = self.na(&na);
                 let dst_addr = na.socket_addr;
@@ -1303,6 +1309,72 @@ impl HandlerRunner {
                         self.withheld.push((xidx0, dst_addr, k, rid));
                     }
                 }
+            }
+            // application of node X answers every request delivered to it and not answered yet, all at
+            // once (the handler finds them queued up behind each other)
+            ["hrespall", x] => {
+                let Some(xi) = self.node_pos(x) else { return self.finish(None, None, 0, out, stats) };
+                let xidx0 = self.nodes[xi].idx;
+                let start = *self.next_req.get(&xidx0).unwrap_or(&0);
+                let todo: Vec<(NodeAddress, Request)> = self.nodes[xi].requests.iter().skip(start).cloned().collect();
+                if todo.is_empty() {
+                    return self.finish(None, None, 1, out, stats);
+                }
+                self.next_req.insert(xidx0, start + todo.len());
+                stats.bump("h.op.resp-burst");
+                let (w0, o0) = (self.wire.len(), out.len());
+                let mut evs = Vec::new();
+                let mut rids = Vec::new();
+                self.settle();
+                for (na, req) in &todo {
+                    let body = match code_of(&req.body) { 2 => ResponseBody::Nodes { total: 1, nodes: vec![self.nodes[xi].enr.clone()] }, 3 => ResponseBody::Nodes { total: 1, nodes: vec![] }, 4 => ResponseBody::Talk { response: b"y".to_vec() }, _ => ResponseBody::Pong { enr_seq: 1, ip: "10.0.0.1".parse().unwrap(), port: std::num::NonZeroU16::new(9000).unwrap() } };
+                    let resp = Response { id: req.id.clone(), body };
+                    let rid = self.name_rid(req.id.as_bytes(), 0);
+                    let rb = self.rb_term(&resp.body);
+                    let nas = self.na(na);
+                    evs.push(format!("hev {} appresp {} {} {}", xidx0, nas, rid, rb));
+                    rids.push((rid, na.socket_addr));
+                    let _ = self.nodes[xi].to_handler.send(HandlerIn::Response(na.clone(), Box::new(resp)));
+                }
+                self.settle();
+                let all = self.drain(xi, out, stats);
+                // one reply segment per response: the i-th datagram belongs to the i-th response
+                let (body, ex) = all.split_once(" ## ").map(|(a, b)| (a.to_string(), b.to_string())).unwrap_or((all.clone(), "-".into()));
+                let items: Vec<&str> = if body == "-" { vec![] } else { body.split(' ').collect() };
+                let mut replies: Vec<String> = Vec::new();
+                if items.len() == evs.len() {
+                    for it in &items { replies.push(format!("{} ## {}", it, ex)); }
+                } else {
+                    replies.push(format!("{} ## {}", body, ex));
+                    for _ in 1..evs.len() { replies.push(format!("- ## {}", ex)); }
+                }
+                // C20 / C04: every response of the burst is put on the wire exactly once
+                for (rid, dst_addr) in &rids {
+                    let needle = format!("|resp/{}/", rid);
+                    let mut copies = 0;
+                    for k in w0..self.wire.len() {
+                        let (from, dst, dst_id, bytes) = { let d = &self.wire[k]; (d.from_idx, d.dst, d.dst_id, d.bytes.clone()) };
+                        if from == xidx0 && dst == *dst_addr {
+                            let di = self.id_idx_ro(&dst_id);
+                            if self.describe(&bytes, di, xidx0, false).map(|t| t.contains(&needle)).unwrap_or(false) { copies += 1; }
+                        }
+                    }
+                    if copies != 1 && items.len() != 0 {
+                        out.insert(o0, format!("!MON C20 response-of-a-burst-on-the-wire-{}-times node={} rid={}", copies, xidx0, rid));
+                        out.insert(o0, format!("!MON C04 response-of-a-burst-on-the-wire-{}-times node={} rid={}", copies, xidx0, rid));
+                    }
+                }
+                // time passes afterwards, as after every op
+                let mut buf = Vec::new();
+                self.finish_phases(None, None, &[1], &mut buf, stats);
+                let (advop, advrep) = {
+                    let mut o = String::new(); let mut r = String::new();
+                    for l in &buf { if let Some(x) = l.strip_prefix("!OP hmulti ") { o = x.to_string(); } else if !l.starts_with('!') { r = l.clone(); } }
+                    (o, r)
+                };
+                for l in buf.iter().filter(|l| l.starts_with("!MON") || l.starts_with("!INFO")) { out.push(l.clone()); }
+                out.push(format!("!OP hmulti {} ;; {}", evs.join(" ;; "), advop));
+                out.push(format!("{} ;; {}", replies.join(" ;; "), advrep));
             }
             // network delivers wire datagram #k: `hdel K` | `hdel K SRCADDRIDX` (spoofed source) |
             // `hdel K SRCADDRIDX TONODE` (redirected)
@@ -1751,6 +1823,50 @@ pub fn gen_case(rng: &mut Rng, tier: &str, profile: &str, stats: &mut Stats) -> 
         return ops;
     }
     let adversarial = profile == "C01" || profile == "C02" || profile == "C03" || rng.chance(1, 2);
+    if (profile == "C04" || profile == "C20") && !dual_redirect && rng.chance(1, 8) {
+        // directed prefix: a burst of requests to a peer without a session (they queue up behind the
+        // handshake), all released at once, all answered at once
+        stats.bump("gen.cases.directed-burst");
+        let x = rng.range(1, n);
+        let y = other(rng, x);
+        let m = rng.range(34, 44);
+        for _ in 0..m {
+            ops.push(format!("hreq {} {} enr {} {}", x, y, rid, if profile == "C20" { 4 } else { rng.range(1, 4) })); rid += 1;
+        }
+        ops.push("hdel next".into());
+        ops.push(format!("hwru {} next known", y));
+        ops.push("hdel next".into());
+        // the handshake and every released request
+        for _ in 0..m + 1 { ops.push("hdel next".into()); }
+        if rng.chance(3, 4) {
+            ops.push(format!("hrespall {}", y));
+            for _ in 0..m { ops.push("hdel next".into()); }
+        }
+        emitted += 2 * m + 3;
+    }
+    if profile == "C02" && n == 3 && !dual_redirect && rng.chance(1, 5) {
+        // directed prefix: a node waits for answers from two peers; one of them answers with the
+        // request id of the request sent to the other
+        stats.bump("gen.cases.directed-response-with-foreign-request-id");
+        let x = rng.range(1, 3);
+        let y = other(rng, x);
+        let z = 6 - x - y;
+        let ry = rid; rid += 1;
+        for (peer, r) in [(y, ry), (z, rid)] {
+            ops.push(format!("hreq {} {} enr {} 1", x, peer, r));
+            ops.push("hdel next".into());
+            ops.push(format!("hwru {} next known", peer));
+            for _ in 0..2 { ops.push("hdel next".into()); }
+        }
+        rid += 1;
+        ops.push(format!("hresp {} next pong {}", z, ry));
+        ops.push("hdel next".into());
+        if rng.chance(1, 2) {
+            ops.push(format!("hresp {} next auto", y));
+            ops.push("hdel next".into());
+        }
+        emitted += 10;
+    }
     if (profile == "C01" || profile == "C02") && !dual_redirect && rng.chance(1, 5) {
         // directed prefix: a session is re-keyed by a genuine exchange (the peer could not read a
         // damaged request and challenged it), traffic flows under the new keys, and then a request
@@ -1996,7 +2112,7 @@ pub fn gen_case(rng: &mut Rng, tier: &str, profile: &str, stats: &mut Stats) -> 
             }
             73..=84 => {
                 let x = rng.range(1, n);
-                let kind = match rng.below(17) { 0 => "nodes1", 1 => "nodes3", 2 => "nodes0", 3 => "talk", 4 => "nodesbad", 5 => "pong", 6 => "nodesother", 7 => "nodesownother", 8 => "nodesotherown", _ => "auto" };
+                let kind = match rng.below(18) { 0 => "nodes1", 1 => "nodes3", 2 => "nodes0", 3 => "talk", 4 => "nodesbad", 5 => "pong", 6 => "nodesother", 7 => "nodesownother", 8 => "nodesotherown", 9 => "nodes20", _ => "auto" };
                 ops.push(format!("hresp {} next {}", x, kind));
                 emitted += 1;
             }
